@@ -140,6 +140,19 @@ CLAIMED = {
          'Axioms: none (Print Assumptions: Closed under the global context; Q field tactics add none).',
     technique='Coq proof (parametric in the transformation; induction over gradient sequences; Q field/ring for Welford) + per-run correspondence by vm_compute',
     ref='DESIGN.md section 5, C17'),
+  'C18': dict(
+    text='PARTIAL. A Gallina model of the conversions behind the Linen<->NNX bridge (linen_vars_to_nnx_attrs / nnx_attrs_to_linen_vars / _recursive_merge on flattened trees, collections merged in '
+         'sorted order, ToNNX merging the updates of mutable collections, the name<->type registry with allow_register). Proved: the registry stays injective and its two lookups are inverse; '
+         'merging updates changes exactly the updated leaves at any depth; reading attributes back as Linen variables is faithful (names, values, collection by registered type), hence the '
+         'state of a ToNNX wrapper after a call is the old state overwritten by the updates. Tied to /repo per run: ToNNX around random Linen module programs (lazy_init and 1-3 calls with '
+         'mutable sets) compared with Model/Linen.v\'s apply on the variables the wrapper holds plus the bridge model, and with the real Module.apply; ToLinen around NNX modules compared with '
+         'the NNX module called with the same state and with Model/NnxLift.v\'s body semantics.',
+    note='Trusted: Coq kernel, vm_compute, harness, jaxcompat. NOT proved: that the wrappers return the wrapped module\'s output (they call the module; decided per run). Known findings: F11 (one '
+         'name in two collections is lost), F24 (sown tuple collections break ToNNX); F23 (nested parameters dropped by the shallow merge) found while building this check and fixed. '
+         'ToLinen.init stores the state the NNX module has when constructed (updates made by the first call are not stored): mirrored. Sharding metadata boxes (Partitioned/NNXMeta) are not '
+         'generated. No axioms.',
+    technique='Coq proof (assoc-list map lemmas, registry injectivity) + per-run model-vs-implementation correspondence by vm_compute + wrapper-vs-wrapped-module oracle',
+    ref='DESIGN.md section 5, C18'),
   'C19': dict(
     text='Theorems about a Gallina model of the partition-name bookkeeping written from the code (Python list.insert/pop with arbitrary integer index, None padding, '
          'negative-index normalisation as in the fix: commit, jnp-style stacking of shapes, the rule loop of _logical_to_mesh_axes): for every rank and every axis '
